@@ -67,6 +67,17 @@ def _adj_base(n, triples, fmt='csr', dtype='float64'):
     c = np.array([e[1] for e in triples], dtype=int)
     w = np.array([e[2] for e in triples], dtype=float)
     m = sparse.csr_matrix((w, (r, c)), shape=(n, n))
+    if dtype == 'float64_dup':
+        # the same matrix as a valid CSR structure with DUPLICATE entries: every weight split over two stored entries of the same
+        # position (what csr_matrix((data, indices, indptr)) keeps as given; the matrix denoted is the sum, as everywhere in SciPy)
+        indptr, indices, data = [0], [], []
+        for i in range(n):
+            for k in range(m.indptr[i], m.indptr[i + 1]):
+                indices += [int(m.indices[k])] * 2
+                data += [float(m.data[k]) * 0.25, float(m.data[k]) * 0.75]
+            indptr.append(len(indices))
+        return sparse.csr_matrix((np.array(data, dtype=float), np.array(indices, dtype=np.int32), np.array(indptr, dtype=np.int32)),
+                                 shape=(n, n))
     if dtype != 'float64':
         m = m.astype(dtype)
     return m
